@@ -12,7 +12,7 @@ RULE = (
     '1-3 producers and 1-6 consumers (iterating, single-shot `await channel`, and both at once '
     'in one activity) subscribing '
     'before / between / after puts, consumers slower than producers, consumers that leave after '
-    'k messages, optional close (and puts after close); un-injected run plus cancel / '
+    'k messages, optional close (and puts after close), bursts of 300-5000 messages while a consumer is busy; 40% of the scenarios with equal, equally hashing, falsy message objects and 40% on a Channel that served an earlier complete run(); un-injected run plus cancel / '
     'until-interrupt / close injected at activation boundaries of any consumer or producer '
     '(quick: sampled; thorough: every boundary x participant x kind + double faults). Offline '
     'broadcast checker with unique message ids: each consumer\'s received sequence must be, '
@@ -31,6 +31,31 @@ REQUIRED_STATS = ['messages_received', 'subscriptions', 'signals_landed', 'struc
                   'struck:interrupt', 'struck:close']
 
 GRID = [0, 0, 0, 0.5, 0.5, 1, 1, 2]
+
+
+class Twin:
+    """payload that is equal to every other Twin, hashes alike and is falsy: streams must treat
+    messages as opaque objects (identity), never compare, deduplicate or truth-test them"""
+    __slots__ = ('ident',)
+
+    def __init__(self, ident):
+        self.ident = ident
+
+    def __eq__(self, other):
+        return isinstance(other, Twin)
+
+    def __hash__(self):
+        return 0
+
+    def __bool__(self):
+        return False
+
+    def __repr__(self):
+        return 'Twin(%s)' % self.ident
+
+
+def unwrap(payload):
+    return payload.ident if isinstance(payload, Twin) else payload
 
 
 def n_cases(tier):
@@ -63,6 +88,7 @@ def make_case(seed, index, tier):
         consumers = consumers[:3]
         consumers[0].update(mode='iter', count=10 ** 9, work=rng.choice([0.5, 1, 2]))
     return {'seed': seed, 'index': index, 'tier': tier, 'burst': burst,
+            'twins': rng.random() < 0.4, 'reused': rng.random() < 0.4,
             'scenario': {'producers': producers, 'consumers': consumers}}
 
 
@@ -192,11 +218,39 @@ class ChannelChecker:
         self.ghosts('quiescence')
 
 
+def earlier_simulation(channel):
+    """a complete, separate run() in which the same (still open) Channel object was used"""
+    import usim
+
+    async def listener(count):
+        seen = 0
+        async for _ in channel:
+            seen += 1
+            if seen >= count:
+                break
+
+    async def single():
+        await channel
+
+    async def main():
+        async with usim.Scope() as scope:
+            scope.do(listener(2))
+            scope.do(listener(3))
+            scope.do(single())
+            await (time + 1)
+            for message in ('x', 'y', 'z'):
+                await channel.put(message)
+    usim.run(main())
+
+
 def build_for(case):
     scenario = case['scenario']
 
     def build(arena):
         channel = Channel()
+        wrap = Twin if case.get('twins') else str
+        if case.get('reused'):
+            earlier_simulation(channel)
         checker = ChannelChecker(arena, channel)
 
         def producer(spec):
@@ -215,7 +269,7 @@ def build_for(case):
                             message = '%s.%d.%d' % (name, number, sub_number)
                             accepted = checker.put_start(name, message, quiet=True)
                             try:
-                                await channel.put(message)
+                                await channel.put(wrap(message))
                             except StreamClosed:
                                 checker.put_outcome(name, message, accepted, True)
                                 break
@@ -227,7 +281,7 @@ def build_for(case):
                     message = '%s.%d' % (name, number)
                     accepted = checker.put_start(name, message)
                     try:
-                        await channel.put(message)
+                        await channel.put(wrap(message))
                     except StreamClosed:
                         checker.put_outcome(name, message, accepted, True)
                     else:
@@ -245,7 +299,7 @@ def build_for(case):
                         sub = checker.subscribe(name, True)
                         checker.stats['singles'] += 1
                         try:
-                            message = await channel
+                            message = unwrap(await channel)
                         except StreamClosed:
                             checker.leave(sub, 'closed')
                             break
@@ -260,6 +314,7 @@ def build_for(case):
                 count = 0
                 try:
                     async for message in channel:
+                        message = unwrap(message)
                         checker.receive(sub, message)
                         count += 1
                         if count >= spec['count']:
@@ -271,7 +326,7 @@ def build_for(case):
                             checker.stats['nested_subscriptions'] = \
                                 checker.stats.get('nested_subscriptions', 0) + 1
                             try:
-                                extra = await channel
+                                extra = unwrap(await channel)
                             except StreamClosed:
                                 checker.leave(inner, 'closed')
                             except BaseException:
